@@ -17,6 +17,79 @@ def _stamp(particles, valid_gids):
     return particles
 
 
+from pysph.sph.equation import Equation, Group
+
+
+class ScaleH(Equation):
+    def __init__(self, dest, sources, factor):
+        self.factor = factor
+        super(ScaleH, self).__init__(dest, sources)
+
+    def initialize(self, d_idx, d_h):
+        d_h[d_idx] = d_h[d_idx]*self.factor
+
+
+class HFromVolume(Equation):
+    def __init__(self, dest, sources, k, dim):
+        self.k = k
+        self.dim1 = 1.0/dim
+        super(HFromVolume, self).__init__(dest, sources)
+
+    def initialize(self, d_idx, d_h, d_m, d_rho):
+        d_h[d_idx] = self.k*pow(d_m[d_idx]/d_rho[d_idx], self.dim1)
+
+
+class LinearEOS(Equation):
+    def __init__(self, dest, sources, rho0, c0):
+        self.rho0 = rho0
+        self.c0 = c0
+        super(LinearEOS, self).__init__(dest, sources)
+
+    def initialize(self, d_idx, d_p, d_rho, d_cs):
+        d_p[d_idx] = self.c0*self.c0*(d_rho[d_idx] - self.rho0)
+        d_cs[d_idx] = self.c0
+
+
+def _adaptive_h_app(nx):
+    """a free-surface block with a smoothing length that changes inside the acceleration evaluation (the pattern of the
+    shipped GSPH scheme: widen h, sum the density, set h back from the volume), written with nested groups whose outer
+    group asks for the neighbour update"""
+    from pysph.base.utils import get_particle_array_wcsph
+    from pysph.base.kernels import CubicSpline
+    from pysph.solver.application import Application
+    from pysph.solver.solver import Solver
+    from pysph.sph.integrator import EPECIntegrator
+    from pysph.sph.integrator_step import WCSPHStep
+    from pysph.sph.basic_equations import SummationDensity, XSPHCorrection
+    from pysph.sph.wc.basic import MomentumEquation
+    dx = 1.0/nx
+    hdx, rho0, c0 = 1.2, 1.0, 10.0
+
+    class AdaptiveH(Application):
+        def create_particles(self):
+            rng = np.random.RandomState(1234)
+            x, y = np.mgrid[0:1.0:dx, 0:1.0:dx]
+            x = x.ravel() + 0.2*dx*(rng.random_sample(x.size) - 0.5)
+            y = y.ravel() + 0.2*dx*(rng.random_sample(y.size) - 0.5)
+            pa = get_particle_array_wcsph(name='fluid', x=x, y=y, m=np.ones_like(x)*dx*dx*rho0, h=np.ones_like(x)*hdx*dx,
+                                          rho=np.ones_like(x)*rho0)
+            return [pa]
+
+        def create_solver(self):
+            return Solver(dim=2, kernel=CubicSpline(dim=2), integrator=EPECIntegrator(fluid=WCSPHStep()), dt=2e-4, tf=1.0)
+
+        def create_equations(self):
+            return [
+                Group(equations=[Group(equations=[ScaleH(dest='fluid', sources=None, factor=2.0)])], update_nnps=True),
+                Group(equations=[SummationDensity(dest='fluid', sources=['fluid'])]),
+                Group(equations=[Group(equations=[HFromVolume(dest='fluid', sources=None, k=hdx, dim=2)]),
+                                 Group(equations=[LinearEOS(dest='fluid', sources=None, rho0=rho0, c0=c0)])], update_nnps=True),
+                Group(equations=[MomentumEquation(dest='fluid', sources=['fluid'], c0=c0, alpha=0.0, beta=0.0),
+                                 XSPHCorrection(dest='fluid', sources=['fluid'], eps=0.1)]),
+            ]
+    return AdaptiveH
+
+
 def make_app(problem, valid_gids):
     if problem == 'drop':
         from pysph.examples.elliptical_drop import EllipticalDrop as Base
@@ -24,6 +97,8 @@ def make_app(problem, valid_gids):
         from pysph.examples.cavity import LidDrivenCavity as Base
     elif problem == 'tg':
         from pysph.examples.taylor_green import TaylorGreen as Base
+    elif problem == 'adapth':
+        Base = _adaptive_h_app(_NX[0])
     elif problem == 'sod':
         # 1-D gas dynamics in a mirror domain, variable smoothing length
         from pysph.examples.gas_dynamics.sod_shocktube import SodShockTube as Base
@@ -40,7 +115,13 @@ def make_app(problem, valid_gids):
     return App(fname='verif_' + problem)
 
 
+_NX = [8]
+
+
 def problem_args(problem, nx):
+    _NX[0] = int(nx)
+    if problem == 'adapth':
+        return []
     if problem == 'drop':
         return ['--nx', str(nx)]
     if problem == 'cavity':
